@@ -1,14 +1,19 @@
 import HpxVerif.Lemmas.BmocAnd
 import HpxVerif.Lemmas.BmocEnc
+import HpxVerif.Lemmas.CoverWF
 
 /-!
 # C09 — every BMOC handed to the user is well formed and its views agree
 
 Proved here: the raw encoding is injective and order preserving (`Cell::new ∘ build_raw_value = id` for every
 `depth ≤ depth_max ≤ 29`, `hash < 12·4^depth`; a cell lying before another one in z-order has the smaller raw value;
-raw values fit in 64 bits), and `and` preserves well-formedness.  Open statements (validated by correspondence and
-the direct well-formedness oracle on every BMOC the runs produce): `not_wf`, `or_wf`, `xor_wf`, `pack_wf`,
-`flat_iter_spec`, `to_ranges_spec`, `deep_size_eq_length`.
+raw values fit in 64 bits), `and` preserves well-formedness, **`pack` preserves well-formedness and content**,
+`to_bmoc_packing` of a well-formed in-range cell list is a well-formed BMOC with strictly increasing entries
+(`packed_bmoc_wf`), and **the cone coverage started from the 12 base cells returns a well-formed BMOC whatever the
+floating-point tests answer** (`cone_coverage_base_start_wf`; with a starting depth the same holds provided the start
+cells returned by `neighbours` are distinct — C04 — by `rootsFold`).  Open statements (validated by correspondence and the
+direct well-formedness oracle on every BMOC the runs produce): `not_wf`, `or_wf`, `xor_wf`, `flat_iter_spec`,
+`to_ranges_spec`, `deep_size_eq_length`.
 -/
 
 namespace Hpx.C09
@@ -49,5 +54,71 @@ theorem and_wf (D : Nat) (a b : List Cell) (ha : WF D a) (hb : WF D b) : WF D (a
   (and_wf_inside D a b ha hb).1
 
 example : decode (encode 29 ⟨29, 12 * 4 ^ 29 - 1, true⟩) 29 = ⟨29, 12 * 4 ^ 29 - 1, true⟩ := by decide +kernel
+
+/-- **`pack` preserves well-formedness and content** of every list of valid entries (depth ≤ 29) -/
+theorem pack_wf (dm : Nat) (hdm : dm ≤ 29) (l : List Nat) (hv : ∀ r ∈ l, ValidRaw dm r) (hw : WF dm (cellsOf dm l)) :
+    WF dm (cellsOf dm (pack dm l)) ∧ (∀ r ∈ pack dm l, ValidRaw dm r) ∧
+    ∀ x, stOf dm (cellsOf dm (pack dm l)) x = stOf dm (cellsOf dm l) x :=
+  ⟨(Hpx.Bmoc.pack_sem dm hdm l hv).2.2 hw, (Hpx.Bmoc.pack_sem dm hdm l hv).2.1, (Hpx.Bmoc.pack_sem dm hdm l hv).1⟩
+
+/-- **`to_bmoc_packing`**: the BMOC built from a well-formed, in-range cell list (what every coverage descent hands to
+    the builder) has valid entries, sorted disjoint cells, strictly increasing raw values and the same content -/
+theorem packed_bmoc_wf (dm : Nat) (hdm : dm ≤ 29) (cells : List Cell) (hw : WF dm cells)
+    (hr : ∀ c ∈ cells, Hpx.Cover.InRange c) :
+    (∀ r ∈ pack dm (cells.map (encode dm)), ValidRaw dm r) ∧ WF dm (cellsOf dm (pack dm (cells.map (encode dm)))) ∧
+    (pack dm (cells.map (encode dm))).Pairwise (· < ·) ∧
+    (∀ x, stOf dm (cellsOf dm (pack dm (cells.map (encode dm)))) x = stOf dm cells x) :=
+  Hpx.Cover.packed_bmoc_wf dm hdm cells hw hr
+
+/-- **the cone coverage started from the 12 base cells (no starting depth, or `r ≥ π`) returns a well-formed BMOC**,
+    whatever the floating-point tests answer: valid entries, sorted disjoint cells, strictly increasing raw values -/
+theorem cone_coverage_base_start_wf {α : Type} [Num α] (cfg : Cfg) (depth : Nat) (lon lat r : α) (b : BMOC)
+    (hno : Num.ge r (Num.pi : α) = true ∨ C2V.hasBestStartingDepth r = false)
+    (h : Hpx.Cover.coneCoverageApprox cfg depth lon lat r = some b) :
+    b.dmax = depth ∧ (∀ e ∈ b.entries, ValidRaw depth e) ∧ WF depth (cellsOf depth b.entries) ∧
+    b.entries.Pairwise (· < ·) := by
+  unfold Hpx.Cover.coneCoverageApprox at h
+  split at h
+  · simp at h
+  · rename_i hd
+    have hdm : depth ≤ 29 := by omega
+    simp only [Option.map_eq_some_iff] at h
+    obtain ⟨cells, hcells, rfl⟩ := h
+    have key : WF depth cells ∧ ∀ c ∈ cells, Hpx.Cover.InRange c := by
+      unfold Hpx.Cover.coneInternal at hcells
+      by_cases hpi : Num.ge r (Num.pi : α) = true
+      · simp only [hpi, if_true, Option.some.injEq] at hcells
+        subst hcells
+        refine ⟨?_, ?_⟩
+        · have : ∀ (k n : Nat), WF depth ((List.range' k n).map fun h => ({ depth := 0, hash := h, full := true } : Cell)) := by
+            intro k n
+            induction n generalizing k with
+            | zero => simp [WF]
+            | succ n ih =>
+              simp only [List.range'_succ, List.map_cons]
+              refine ⟨Nat.zero_le _, ?_, ih (k + 1)⟩
+              intro c' hc'
+              simp only [List.mem_map, List.mem_range'_1] at hc'
+              obtain ⟨a, ha, rfl⟩ := hc'
+              show (k + 1) * 4 ^ (depth - 0) ≤ a * 4 ^ (depth - 0)
+              exact Nat.mul_le_mul_right _ ha.1
+          have := this 0 12
+          rwa [← List.range_eq_range'] at this
+        · intro c hc
+          simp only [List.mem_map, List.mem_range] at hc
+          obtain ⟨a, ha, rfl⟩ := hc
+          show a < 12 * 4 ^ 0
+          simpa using ha
+      · have hpi' : Num.ge r (Num.pi : α) = false := by simpa using hpi
+        have hnb : C2V.hasBestStartingDepth r = false := by
+          rcases hno with h1 | h1
+          · rw [h1] at hpi'; simp at hpi'
+          · exact h1
+        simp only [hpi', Bool.false_eq_true, if_false, hnb, Bool.not_false, if_true] at hcells
+        split at hcells
+        · simp at hcells
+        · exact Hpx.Cover.baseCellsFold_wf depth _ (depth + 2) cells hcells
+    obtain ⟨g1, g2, g3, _⟩ := Hpx.Cover.packed_bmoc_wf depth hdm cells key.1 key.2
+    exact ⟨rfl, g1, g2, g3⟩
 
 end Hpx.C09
